@@ -34,6 +34,13 @@ def run(ctx):
         ops = [{"op": "create", "at": "reel", "h": ["md5"], "now": "2026-03-01 12:00:01"}, {"op": "create", "at": "", "h": ["md5", "c4"], "now": "2026-03-01 12:00:02", "i": pats},
                {"op": "create", "at": "", "h": ["md5"], "now": "2026-03-01 12:00:03"}, {"op": "verifydh", "at": "", "co": True}, {"op": "verifydh", "at": ""}, {"op": "verify", "at": ""}]
         scs.insert(0, {"profile": "c07-slash-patterns", "root": "root", "tree": tree, "ops": ops})
+    # a folder re-included after a file pattern, and a negation given in a LATER run than the pattern it overrides: the
+    # patterns act in the order in which they are recorded
+    for i1, i2 in ((["*.tmp", "!keep/"], []), (["*.tmp"], ["!keep/"]), (["*.tmp"], ["!keep.tmp"]), (["*.tmp", "!keep.tmp"], ["*.bak"])):
+        tree = {"keep/render.tmp": "r", "keep/sub/proxy.tmp": "p", "other/x.tmp": "x", "a.txt": "a", "keep.tmp": "k", "b.bak": "b"}
+        ops = [{"op": "create", "at": "", "h": ["md5", "c4"], "now": "2026-03-01 12:00:01", "i": i1}, {"op": "create", "at": "", "h": ["md5"], "now": "2026-03-01 12:00:02", "i": i2},
+               {"op": "verifydh", "at": "", "co": True}, {"op": "verifydh", "at": ""}]
+        scs.insert(0, {"profile": "c07-negation-order", "impl_only": True, "root": "root", "tree": tree, "ops": ops})
     # entries that the history's own patterns (or -i on the verify command line) exclude do not contribute
     for i in range(ctx.scale(12, 150)):
         fs = gen.FsSim()
